@@ -705,7 +705,7 @@ class Norm:
                 return self._canon_match(self._t(first[0][1]), arms)
             if len(effs) == 2 and all(g[0] == "if" for g in first) and all(len(r) == 1 for r in rel) and first[0][1] is first[1][1] and first[0][2] != first[1][2]:
                 a, b = (effs[0][0]["r"], effs[1][0]["r"]) if first[0][2] else (effs[1][0]["r"], effs[0][0]["r"])
-                return ("if", self._t(first[0][1]), self._t(a), self._t(b))
+                return _mk_if(self._t(first[0][1]), self._t(a), self._t(b))
         return t
 
     def _vec_parts(self, init, effs, rel):
@@ -738,9 +738,9 @@ class Norm:
                     inner = _mk_for(self._t(g[1]), inner)
                 elif g[0] == "if":
                     c = self._t(g[1])
-                    inner = ("if", c if g[2] else ("op", "Not", [c]), inner, ("lit", "()"))
+                    inner = _mk_if(c if g[2] else _not(c), inner, ("lit", "()"))
                 elif g[0] == "arm":
-                    inner = ("if", _let(g[2], self._t(g[1])), inner, ("lit", "()"))
+                    inner = _mk_if(_let(g[2], self._t(g[1])), inner, ("lit", "()"))
                 else:
                     return None
             parts.append(inner)
@@ -1103,7 +1103,7 @@ class Norm:
             if name == "Option::ok_or_else" and len(args) == 1 and args[0][0] == "closure" and args[0][2] == 0:
                 return ("call", "ok_or", [recv, _apply(args[0], None)])
             if name == "Option::unwrap_or_default" and not args and recv[0] == "call" and recv[1] == "then" and e.get("ty", "").endswith("TokenStream"):
-                return ("if", recv[2][0], recv[2][1], ("tpl", "quote", "", []))
+                return _mk_if(recv[2][0], recv[2][1], ("tpl", "quote", "", []))
             if name in TRANSPARENT and not args:
                 return recv
             if name == "Iterator::collect" and not args and recv[0] == "call" and recv[1] == "Iterator::filter_map" and len(recv[2]) == 2 \
@@ -1114,7 +1114,7 @@ class Norm:
                 if ob is not None:
                     c, v = ob
                     v = ("try", v)
-                    return ("call", "Ok", [("call", "vec+", [("for", it, v if c is None else ("if", c, v, ("lit", "()")))])])
+                    return ("call", "Ok", [("call", "vec+", [("for", it, v if c is None else _mk_if(c, v, ("lit", "()")))])])
             if name == "Iterator::collect" and not args and recv[0] == "call" and recv[1] == "Iterator::filter_map" and len(recv[2]) == 2 \
                     and recv[2][1][0] == "closure" and recv[2][1][2] == 1 and peel_ty(e.get("ty", "")).startswith(("std::vec::Vec<", "alloc::vec::Vec<")):
                 # it.filter_map(|x| O.map(|y| V)).collect::<Vec<_>>()  ==  for x in it { if let Some(y) = O { push V } }
@@ -1125,7 +1125,7 @@ class Norm:
                 ob = _opt_body(body, strict=True)
                 if ob is not None:
                     c, v = ob
-                    return ("call", "vec+", [("for", it, v if c is None else ("if", c, v, ("lit", "()")))])
+                    return ("call", "vec+", [("for", it, v if c is None else _mk_if(c, v, ("lit", "()")))])
             if name == "Result::map" and len(args) == 1 and args[0][0] == "closure" and args[0][2] == 1:
                 # r.map(|v| X)  ==  match r { Ok(v) => Ok(X), Err(e) => Err(e) }
                 d = args[0][1]
@@ -1137,6 +1137,16 @@ class Norm:
                 # it.filter_map(|x| c.then(|| v))  ==  it.filter(|x| c).map(|x| v)
                 d = args[0][1]
                 return ("call", "Iterator::map", [("call", "Iterator::filter", [recv, ("closure", d, 1, args[0][3][2][0])]), ("closure", d, 1, args[0][3][2][1])])
+            if name == "Iterator::try_for_each" and len(args) == 1 and args[0][0] == "closure" and args[0][2] == 1:
+                # it.try_for_each(|x| { body; Ok(()) })  ==  { for x in it { body } Ok(()) }   (`?` in the body leaves either form with the error)
+                body = _apply(args[0], ("elem", recv))
+                if body[0] == "seq" and body[2] in (("call", "Ok", [("lit", "()")]), ("call", "Ok", [("tup", [])])):
+                    inner = body[1][0] if len(body[1]) == 1 else ("seq", body[1], ("lit", "()"))
+                    return ("seq", [_mk_for(recv, inner)], body[2])
+            if name == "Extend::extend" and len(args) == 1 and args[0][0] == "call" and args[0][1] in ("Iterator::map", "Iterator::filter", "Iterator::filter_map") \
+                    and peel_ty(e["recv"].get("adj") or e["recv"].get("ty", "")).startswith(("std::vec::Vec<", "alloc::vec::Vec<")):
+                # v.extend(it.filter(..).map(..))  ==  for x in it.filter(..).map(..) { v.push(x) }
+                return _mk_for(args[0], ("call", "Vec::push", [recv, ("elem", args[0])]))
             if name == "Iterator::for_each" and len(args) == 1 and args[0][0] == "closure" and args[0][2] == 1:
                 # it.for_each(|x| f(x))  ==  for x in it { f(x) }
                 return _mk_for(recv, _apply(args[0], ("elem", recv)))
@@ -1635,10 +1645,10 @@ def _mk_for(it, body):
         if it[1] == "Iterator::map":
             return _mk_for(base, rewrite(body, lambda n: f if n == old else None))
         if it[1] == "Iterator::filter":
-            return _mk_for(base, ("if", f, rewrite(body, lambda n: el if n == old else None), ("lit", "()")))
+            return _mk_for(base, _mk_if(f, rewrite(body, lambda n: el if n == old else None), ("lit", "()")))
         c, v = _opt_body(f)
         inner = rewrite(body, lambda n: v if n == old else None)
-        return _mk_for(base, inner if c is None else ("if", c, inner, ("lit", "()")))
+        return _mk_for(base, inner if c is None else _mk_if(c, inner, ("lit", "()")))
     return ("for", it, body)
 
 
